@@ -47,6 +47,8 @@ C12_RegistryMatches ==
   Quiet => /\ Seqset(rq.enum) = Open
            /\ \A v \in Vias : rq.ready[v] = (OpenFor(v) # {})
 C12_RoutedToOpenRightKey == ~BadHas("routed-to-wrong-or-closed") /\ ~BadHas("unavailable-although-open") /\ ~BadHas("served-by-other-tunnel")
+\* C17: with RPCs spread over several reverse tunnels WithTunnelChannel reports the tunnel that served the RPC
+C17_CallerSeesCarryingChannel == ~BadHas("served-by-other-tunnel")
 C12_ReadyIff == ~BadHas("ready-wrong")
 C12_WaitForReadyWakes ==
   Quiet => \A i \in 1..Len(rq.pending) : rq.pending[i] \in DOMAIN waits => OpenFor(waits[rq.pending[i]]) = {}
@@ -67,7 +69,7 @@ Formulas == [C12_RegistryMatches |-> C12_RegistryMatches, C12_RoutedToOpenRightK
              C12_ReadyIff |-> C12_ReadyIff, C12_WaitForReadyWakes |-> C12_WaitForReadyWakes, C12_RoundRobin |-> C12_RoundRobin,
              C12_Callbacks |-> C12_Callbacks, C14_ServeLeavesNothing |-> C14_ServeLeavesNothing,
              C14_RegistryEmptyAtEnd |-> C14_RegistryEmptyAtEnd, C10_NoNewTunnels |-> C10_NoNewTunnels,
-             C10_StopMeansStopped |-> C10_StopMeansStopped]
+             C10_StopMeansStopped |-> C10_StopMeansStopped, C17_CallerSeesCarryingChannel |-> C17_CallerSeesCarryingChannel]
 Detail(n) == CASE n = "C14_ServeLeavesNothing" -> "serve-while-closing" [] OTHER -> ""
 NewViol == LET F == Formulas IN
            { <<tidx, n, l - 1, Detail(n)>> : n \in { m \in DOMAIN F : ~F[m] /\ ~\E v \in viol : v[1] = tidx /\ v[2] = m } }
